@@ -90,6 +90,8 @@ pub fn build(tier: Tier) -> CheckDef {
     let (mut spaces, bounds) = spaces_for(tier, Mode::Bounded, Also::Bounded, "C16 bounded work");
     spaces.extend(super::c16_graphs::spaces(tier));
     spaces.push(Box::new(DrainLoops));
+    // entry iterators handed out by both parsers end with their bytes whatever entry size the header declares
+    spaces.push(Box::new(super::c09::FileTables));
     CheckDef {
         prop: "C16",
         level: "model_checking",
